@@ -348,7 +348,12 @@ func famC06(g *Gen, o *Out, n int, thorough bool) {
 	for c := 0; c < n; c++ {
 		wo := g.wOpts()
 		wo.mcs = 2048
-		wo.z = false
+		// every fourth session reopens with ZeroLengthSectionAsEOF (a resumed scan then stops at the first
+		// zero byte: the hole that index padding leaves after the payload), half of those with index padding
+		wo.z = c%4 == 1
+		if wo.z && c%8 == 1 {
+			wo.ip = uint64(3 + g.pick(80))
+		}
 		if g.pick(3) != 0 {
 			wo.dup = false
 		}
